@@ -50,6 +50,23 @@ P = {
    text="dadd +-N s/m/h in ymd/ywd/ymcw/epoch representations across day, month, year boundaries up to 2^31-1 s; ddiff %S; "
         "%s/@N/-i %s both directions incl. negative epochs; 24:00:00 == next midnight.",
    note=SAN + TB, ref="3 C11"),
+ "C12": dict(cat="exploration", tech="reference-model monitor (own RFC 8536 reader of the same file) over zifdrv/CLI answers + invariant probes H1/H2 + ASan/UBSan",
+   text="Every merged transition of 270 real zone images (all 894 in thorough) and 120 synthetic TZif files (v1/2/3, 0..600 "
+        "transitions, odd offsets) is queried at -1/0/+1 s, midpoints, both table ends, on a fresh handle and in ascending/"
+        "descending sweeps: UTC->local offset, local->UTC (unique/ambiguous/gap), adjacent-range lookup; dconv --zone/"
+        "--from-zone and dzone --next/--prev on a sample. Exhaustive over the transitions of the files visited.",
+   note=SAN + "instants before the first transition are outside the property; no POSIX footer. " + TB, ref="3 C12"),
+ "C13": dict(cat="exploration", tech="differential history monitor (N-value run vs N single-value runs; handle-with-history vs fresh handle) + probes + ASan/UBSan",
+   text="29 tool/option sets x 12 histories (permutations, junk prefixes, >255/>512 lines, duplicates, reversal, arguments) "
+        "compared byte-for-byte with single-value runs; zone handles under 6 history shapes against fresh-handle answers and "
+        "the zone-file oracle; several zones in one run against one zone per run.",
+   note=SAN + "single-value runs of the same build are the reference; the oracle backs the zone part so 'both wrong the same way' is excluded. " + TB, ref="3 C13"),
+ "C19": dict(cat="fault_enumeration", tech="fault enumeration over file images under ASan (exact-size images via mmap shim) + probes H1/H3 + fidelity oracle for maps",
+   text="Every truncation length and a fixed fault set per header count field, type index byte, version byte and magic of 14 "
+        "seed TZif files (about 5000 images in quick), non-TZif files; generated zone-map sources compiled by the real "
+        "`tzmap cc`: every present key must resolve, ~500 absent keys must not, `tzmap show` and dconv --zone MAP:KEY; "
+        "compiled maps: every truncation, offset-field faults, byte corruptions.",
+   note=SAN + "the .tzmap payloads are not shipped; sources are generated. " + TB, ref="3 C19"),
 }
 
 NOT_YET = {}
